@@ -312,7 +312,7 @@ func StrDoc() DocOpts {
 	return o
 }
 
-var strPool = []string{"", " ", "a", "ab", "abc", "a b", "  a  b ", "\t", "a\nb", "aab", "12", "-", "a-b", "AbC", "b", "c", "abcabc", "   ", "it's", "a\"b", "'", "\""}
+var strPool = []string{"", " ", "a", "ab", "abc", "a b", "  a  b ", "\t", "a\nb", "aab", "12", "-", "a-b", "AbC", "b", "c", "abcabc", "   ", "it's", "a\"b", "'", "\"", "a\\", "\\"}
 
 // SubstrNum draws a start/length argument: -3 .. 9 in steps of 0.5.
 func (g *G) SubstrNum() xast.Expr {
